@@ -97,12 +97,14 @@ def main():
     elif cmd == "all":
         root = os.path.join(HERE, "seeded")
         results = {}
-        for name in sorted(os.listdir(root)):
+        names = [n for n in sorted(os.listdir(root)) if os.path.isfile(os.path.join(root, n, "patch.diff"))]
+        import multiprocessing
+        with multiprocessing.Pool(16) as pool:
+            allres = dict(zip(names, pool.map(check, [os.path.join(root, n) for n in names])))
+        for name in names:
             sd = os.path.join(root, name)
-            if not os.path.isfile(os.path.join(sd, "patch.diff")):
-                continue
             meta = json.load(open(os.path.join(sd, "meta.json")))
-            res = check(sd)
+            res = allres[name]
             target = meta.get("property")
             caught = sorted(p for p, r in res.items() if r["rc"] == 1)
             undec = sorted(p for p, r in res.items() if r["rc"] == 2)
